@@ -113,6 +113,7 @@ type VC struct {
 	tokParams   map[int]string
 	fvConsts    map[string]string
 	closureSpecsUsed map[string]bool
+	varCells    map[types.Object]*ssa.Alloc
 	callPost   map[ssa.Instruction]*State
 	epochNext  map[int]string
 	roms       map[string]string // global loc const -> ROM array const (immutable global arrays)
@@ -157,7 +158,7 @@ func newVCMode(prog *Program, fn *ssa.Function, fc *FuncContract, mode, name str
 		exit: map[int]*State{}, structSeen: map[string]bool{}, heapSort: map[string]string{}, heapElem: map[string]types.Type{},
 		strLits: map[string]string{}, typeIDs: map[string]int{}, specUsed: map[string]bool{}, assumptions: map[string]bool{},
 		anchors: map[string]int{}, srcLines: map[string][]string{}, loopOf: map[int]*loopInfo{}, rangeIter: map[ssa.Value]*rangeState{},
-		roms: map[string]string{}, epochNext: map[int]string{}, callPost: map[ssa.Instruction]*State{}, callPreHit: map[int]int{}, transferHit: map[int]int{}, fvConsts: map[string]string{}, closureSpecsUsed: map[string]bool{}, pkg: pkg, specInfos: map[string]*specInfo{}, lemmasUsed: map[string]bool{},
+		roms: map[string]string{}, epochNext: map[int]string{}, callPost: map[ssa.Instruction]*State{}, callPreHit: map[int]int{}, transferHit: map[int]int{}, fvConsts: map[string]string{}, closureSpecsUsed: map[string]bool{}, varCells: map[types.Object]*ssa.Alloc{}, pkg: pkg, specInfos: map[string]*specInfo{}, lemmasUsed: map[string]bool{},
 	}
 }
 
